@@ -64,8 +64,16 @@ VAR = {n: 30 + i for i, n in enumerate("abcdefghijklmnopqrstuvwxyz")}   # VAR["g
 REL = [False]      # print literal template names relative ("./t2") - for runs with a path join callback
 
 
+LAYOUT = [None, None]      # ({template id: (directory, base name)}, directory of the template being printed)
+
+
 def ne_src(e):
     if e[0] == "lit":
+        lay, cur = LAYOUT
+        if lay is not None and e[1] != 0:
+            # the name as written is relative to the directory of the template that contains the tag
+            d, b = lay.get(e[1], (cur, S(e[1])))
+            return '"./%s"' % b if d == cur else '"../%s/%s"' % (d, b)
         return '"%s%s"' % ("./" if REL[0] and e[1] != 0 else "", S(e[1]))
     return S(e[1])
 
@@ -147,9 +155,12 @@ class Case:
     loader: templates are served through Environment::set_loader (forced when a template does not load);
     pathjoin: templates are named d/<name>, literal references are relative (./<name>), a path join callback is set"""
 
-    def __init__(self, templates, main, ctx=None, lim=DEFAULT_LIMIT, kind="", note=None, loader=False, pathjoin=False):
+    def __init__(self, templates, main, ctx=None, lim=DEFAULT_LIMIT, kind="", note=None, loader=False, pathjoin=False, layout=None):
         self.templates, self.main, self.ctx, self.lim, self.kind, self.note = templates, main, ctx or {}, lim, kind, note
-        self.pathjoin = pathjoin
+        # layout: {template id: (directory, base name)} - templates live in several directories, literal references are
+        # written relative to the referring template (same base name in two directories = same written name)
+        self.layout = layout
+        self.pathjoin = pathjoin or layout is not None
         self.loader = loader or any(isinstance(b, str) for b in templates.values())
 
     def fuel(self):
@@ -165,14 +176,23 @@ class Case:
             out += [n, -1, BAD_CODE[b]] if isinstance(b, str) else [n] + enc_items(b)
         return out
 
+    def full_name(self, n):
+        if self.layout is not None:
+            d, b = self.layout[n]
+            return d + "/" + b
+        return ("d/" if self.pathjoin else "") + S(n)
+
     def request(self):
-        pre = "d/" if self.pathjoin else ""
         REL[0] = self.pathjoin
+        srcs = {}
         try:
-            srcs = {pre + S(n): (BAD_SRC[b] if isinstance(b, str) else src(b)) for n, b in self.templates.items()}
+            for n, b in self.templates.items():
+                LAYOUT[0], LAYOUT[1] = self.layout, (self.layout[n][0] if self.layout is not None else None)
+                srcs[self.full_name(n)] = BAD_SRC[b] if isinstance(b, str) else src(b)
         finally:
             REL[0] = False
-        r = {"templates": {} if self.loader else srcs, "main": pre + S(self.main),
+            LAYOUT[0] = LAYOUT[1] = None
+        r = {"templates": {} if self.loader else srcs, "main": self.full_name(self.main),
              "ctx": {S(x): S(v) for x, v in self.ctx.items()}, "ops": ["render"]}
         if self.loader: r["loader"] = srcs
         if self.pathjoin: r["path_join"] = True
@@ -628,10 +648,115 @@ def gen_miss_history(chk, cases):
                         cases.append(Case(t, 1, lim=lim, kind="miss-history-limit/%s/%s" % (where, form)))
 
 
+def gen_cycle_members(chk, cases):
+    """inheritance cycles whose members do something at their top level (include, import, from-import, macro, loop, a block
+    with an include): the cycle must still be reported - the record of extended templates survives includes"""
+    ROW, LIB, MISS = 10, 12, 8
+    M, X = VAR["m"], VAR["x"]
+    world = {ROW: [text("r")], LIB: [("set", X, T("X")), ("macro", VAR["f"], [text("F")])]}
+    extras = {
+        "include": [inc([lit(ROW)])],
+        "include-list": [inc([lit(MISS), lit(ROW)], False, 1)],
+        "include-ignore-missing": [inc([lit(MISS)], True)],
+        "import": [("import", lit(LIB), M)],
+        "from": [("from", lit(LIB), [(X, X)])],
+        "include+import": [inc([lit(ROW)]), ("import", lit(LIB), M), inc([lit(MISS)], True)],
+        "include-in-loop": [("for", 2, [inc([lit(ROW)])])],
+        "include-in-block": [blk(D, [inc([lit(ROW)])])],
+        "macro-call": [("macro", VAR["w"], [inc([lit(ROW)])]), ("call", VAR["w"], T("P"))],
+    }
+    for n in (2, 3, 4):
+        for member in range(1, n + 1):
+            for ename, extra in extras.items():
+                for pos in ("after", "before"):
+                    if n == 4 and (pos == "before" or member not in (1, 3)):
+                        continue
+                    t = dict(world)
+                    for i in range(1, n + 1):
+                        t[i] = [("extends", lit(i % n + 1)), text("x%d" % i)]
+                    t[member] = (t[member][:1] + extra + t[member][1:]) if pos == "after" else (extra + t[member])
+                    for start in sorted({1, member}):
+                        cases.append(Case(dict(t), start, kind="cycle-member/%s/%s" % (ename, pos)))
+    # a chain that is NOT a cycle, with the same top-level statements: must still render
+    for ename, extra in extras.items():
+        t = dict(world)
+        t[1] = [("extends", lit(2))] + extra + [blk(A, [text("a1"), SUPER])]
+        t[2] = [("extends", lit(3))] + extra + [blk(A, [text("a2"), SUPER])]
+        t[3] = [text("R(")] + extra + [blk(A, [text("a3")]), text(")")]
+        cases.append(Case(t, 1, kind="chain-member/%s" % ename))
+
+
+def gen_multidir(chk, cases):
+    """templates in several directories under a path join callback: the SAME written relative name ("./_part") names a
+    different template in each directory; every reference resolves relative to the template whose text contains the tag"""
+    M, X, F = VAR["m"], VAR["x"], VAR["f"]
+    HOME, IA, IB, PA, PB, BASEA, BASEB, MISSA = 1, 2, 3, 10, 11, 12, 13, 8
+    dirs = ("blog", "shop")
+    def layout(extra=None):
+        lay = {HOME: ("site", "home"), IA: (dirs[0], "index"), IB: (dirs[1], "index"), PA: (dirs[0], "_part"), PB: (dirs[1], "_part"),
+               BASEA: (dirs[0], "_base"), BASEB: (dirs[1], "_base")}
+        lay.update(extra or {})
+        return lay
+    parts_plain = {PA: [text("<blog-part>")], PB: [text("<shop-part>")]}
+    parts_lib = {PA: [("set", X, T("blog-x")), ("macro", F, [text("blog-f"), ("print", V_PARAM)])],
+                 PB: [("set", X, T("shop-x")), ("macro", F, [text("shop-f"), ("print", V_PARAM)])]}
+    def use(kind, part):
+        """statements that refer to the directory's own _part (written "./_part" in both directories)"""
+        if kind == "include": return [inc([lit(part)])]
+        if kind == "include-list": return [inc([lit(MISSA), lit(part)], False, 1)]
+        if kind == "include-ignore": return [inc([lit(part)], True)]
+        if kind == "include-loop": return [("for", 2, [inc([lit(part)])])]
+        if kind == "include-macro": return [("macro", VAR["w"], [inc([lit(part)])]), ("call", VAR["w"], T("P"))]
+        if kind == "include-block": return [blk(B, [inc([lit(part)])])]
+        if kind == "import": return [("import", lit(part), M), ("pattr", M, X), ("cattr", M, F, T("1"))]
+        if kind == "from": return [("from", lit(part), [(X, X), (F, F)]), ("print", X), ("call", F, T("1"))]
+    kinds = ("include", "include-list", "include-ignore", "include-loop", "include-macro", "include-block", "import", "from")
+    for ka in kinds:
+        for kb in kinds:
+            parts = parts_lib if ("import" in (ka, kb) or "from" in (ka, kb)) else parts_plain
+            if (ka in ("import", "from")) != (kb in ("import", "from")) :
+                continue
+            for order in ((IA, IB), (IB, IA), (IA, IB, IA)):
+                t = dict(parts)
+                t[IA] = [text("blog[")] + use(ka, PA) + [text("]")]
+                t[IB] = [text("shop[")] + use(kb, PB) + [text("]")]
+                t[HOME] = [text("H(")] + [z for i in order for z in (inc([lit(i)]), text("|"))] + [text(")")]
+                lay = layout()
+                cases.append(Case(t, HOME, kind="multidir/siblings/%s/%s" % (ka, kb), layout={k: lay[k] for k in t}, loader=(len(order) == 3)))
+            # the home template lives in one of the directories and uses the name itself before including the other
+            t = dict(parts)
+            t[IA] = [text("blog[")] + use(ka, PA) + [text("|"), inc([lit(IB)]), text("|")] + use("include" if parts is parts_plain else "import", PA)[:2] + [text("]")]
+            t[IB] = [text("shop[")] + use(kb, PB) + [text("]")]
+            lay = layout()
+            cases.append(Case(t, IA, kind="multidir/nested/%s/%s" % (ka, kb), layout={k: lay[k] for k in t}))
+    # an inherited block defined in another directory, next to super(): each definition names its own directory's _part
+    for k in ("include", "include-list", "include-loop", "import", "from"):
+        parts = parts_lib if k in ("import", "from") else parts_plain
+        for childfirst in (False, True):
+            t = dict(parts)
+            t[IA] = [text("L(")] + [blk(A, [text("layout:")] + use(k, PA))] + [text(")")]
+            child_body = ([text("page:")] + use(k, PB) + [text("+"), SUPER]) if childfirst else ([SUPER, text("+page:")] + use(k, PB))
+            t[IB] = [("extends", lit(IA)), blk(A, child_body)]
+            lay = layout()
+            cases.append(Case(t, IB, kind="multidir/inherited-block/%s" % k, layout={kk: lay[kk] for kk in t}))
+    # the same written name in extends tags: each directory has its own _base
+    for order in ((IA, IB), (IB, IA)):
+        t = {BASEA: [text("blogbase("), blk(A, [text("ba")]), text(")")], BASEB: [text("shopbase("), blk(A, [text("sa")]), text(")")],
+             IA: [("extends", lit(BASEA)), blk(A, [text("blog:"), SUPER])], IB: [("extends", lit(BASEB)), blk(A, [text("shop:"), SUPER])]}
+        t[HOME] = [text("H(")] + [z for i in order for z in (inc([lit(i)]), text("|"))] + [text(")")]
+        lay = layout()
+        cases.append(Case(t, HOME, kind="multidir/extends", layout={k: lay[k] for k in t}))
+    # a cycle through two directories with relative names
+    t = {IA: [("extends", lit(IB)), inc([lit(PA)])], IB: [("extends", lit(IA)), inc([lit(PB)])]}
+    t.update(parts_plain)
+    lay = layout()
+    cases.append(Case(t, IA, kind="multidir/cycle", layout={k: lay[k] for k in t}))
+
+
 def gen_variants(chk, cases):
     """the same configurations served lazily through a loader, and under a path join callback with relative names"""
     rng = chk.rng
-    base = [c for c in cases if not c.loader and not c.pathjoin]
+    base = [c for c in cases if not c.loader and not c.pathjoin and c.layout is None]
     extra = []
     for k in range(12000 if chk.thorough else 1500):
         c = rng.choice(base)
@@ -701,6 +826,8 @@ def all_cases(chk):
     gen_placements(chk, cases)
     gen_unloadable(chk, cases)
     gen_miss_history(chk, cases)
+    gen_cycle_members(chk, cases)
+    gen_multidir(chk, cases)
     gen_outside_fragment(chk, cases)
     gen_variants(chk, cases)
     return cases
@@ -709,7 +836,7 @@ def all_cases(chk):
 def replay_payload(c, extra):
     d = c.describe()
     d.update(extra)
-    d["tree"] = {"templates": repr(c.templates), "main": c.main, "ctx": repr(c.ctx), "lim": c.lim, "loader": c.loader, "pathjoin": c.pathjoin,
+    d["tree"] = {"templates": repr(c.templates), "main": c.main, "ctx": repr(c.ctx), "lim": c.lim, "loader": c.loader, "pathjoin": c.pathjoin, "layout": repr(c.layout),
                  "texts": {str(k): v for k, v in TAB.text.items()}}
     d["how"] = "./check C06 --replay <this file>"
     return d
@@ -720,7 +847,7 @@ def load_replay(path):
     for k, v in rp["texts"].items():
         TAB.text[int(k)] = v
         TAB.rev[v] = int(k)
-    return [Case(eval(rp["templates"]), rp["main"], eval(rp["ctx"]), rp["lim"], kind="replay", loader=rp.get("loader", False), pathjoin=rp.get("pathjoin", False))]
+    return [Case(eval(rp["templates"]), rp["main"], eval(rp["ctx"]), rp["lim"], kind="replay", loader=rp.get("loader", False), pathjoin=rp.get("pathjoin", False), layout=eval(rp.get("layout", "None")))]
 
 
 def main():
@@ -797,7 +924,7 @@ def main():
     chk.cov["distinct_nontrivial"] = len(nontriv)
     chk.cov["rule"] = ("exhaustive: every assignment of {absent, override, override + super() before, override + super() after} (+ nesting of c inside a) to blocks a, c for chains of 1-3 templates"
                        + (" and 4 templates" if chk.thorough else "; 4-template chains and the 3-block alphabet are seeded samples")
-                       + "; dynamic / conditional extends over all 2-template assignments + samples; EMPTY definitions at every level (exhaustive over one block for 2-4 templates); include / import placements (top level, for loop, macro, block, block of an extending template) x naming forms x targets; templates that exist but do not load (syntax error / failing loader) in include lists, with ignore missing, import, extends, render; a sample of all configurations served through Environment::set_loader and under a path join callback with relative names; histories of 3-200 missed include lookups (loops over include lists with missing candidates, ignore missing, in sequence) followed by includes / blocks / loops / nestings, at the default limit and at small limits right at the boundary; cycles, double extends, missing templates, include cycles, recursion depth boundaries, required blocks. "
+                       + "; dynamic / conditional extends over all 2-template assignments + samples; EMPTY definitions at every level (exhaustive over one block for 2-4 templates); include / import placements (top level, for loop, macro, block, block of an extending template) x naming forms x targets; templates that exist but do not load (syntax error / failing loader) in include lists, with ignore missing, import, extends, render; a sample of all configurations served through Environment::set_loader and under a path join callback with relative names; histories of 3-200 missed include lookups (loops over include lists with missing candidates, ignore missing, in sequence) followed by includes / blocks / loops / nestings, at the default limit and at small limits right at the boundary; inheritance cycles of 2-4 templates whose members include / import / from-import / call macros / loop at their top level (before or after the extends tag); multi-directory layouts under the path join callback where the same written relative name names a different template per directory (include, list, ignore missing, loop, macro, block, import, from, extends, inherited blocks next to super(), a cross-directory cycle); cycles, double extends, missing templates, include cycles, recursion depth boundaries, required blocks. "
                        "Each case is rendered by the engine in a debug and a release build and evaluated by the extracted model and specification. "
                        "non-trivial = distinct (templates, context) with at least two templates whose render is a non-empty text or an error")
     chk.cov["exhaustive"] = False
